@@ -187,8 +187,10 @@ def judge(r, seg, qkey, qval, hval, method, bodykind, dontcare, pq="none"):
                       for p in msg.get_payload()}
         except Exception as ex:
             fields = "unparsable (%s)" % ex
-        if fields != {"f": "v1", "g": "v 2 \u00e9"}:
-            return "multipart form fields recovered as %r from %r" % (fields, r["body"][:200])
+        bnd = (msg.get_param("boundary") or "").encode("latin-1")
+        if fields != {"f": "v1", "g": "v 2 \u00e9"} or not bnd or not r["body"].rstrip(b"\r\n").endswith(b"--" + bnd + b"--") \
+                or r["body"].count(b"--" + bnd) != 3:
+            return "multipart form fields recovered as %r from %r (boundary %r)" % (fields, r["body"][:200], bnd)
     if bodykind == "form" and method != "GET":
         if dict(parse_qsl(r["body"].decode("utf-8"), keep_blank_values=True)) != {"f": "v1", "g": "v 2"}:
             return "form fields recovered as %r" % r["body"]
